@@ -476,7 +476,7 @@ def units_C05(tier, seed):
             ex = ['-mbmi2'] if 1 in (a, b) else []
             U += unit(f'c05_convfixed_{LAYNAME[a]}_{LAYNAME[b]}_{"x".join(str(x) for x in e[:n])}_{v}', H,
                       f'conv_fixed_h<{a},{b},{n},{VEC[v]},{e[0]},{e[1]},{e[2]}>()', extra=ex, sites=[1, 2, 3, 4, 5, 6, 7],
-                      weight=e[0] * max(1, e[1]) * max(1, e[2]), timeout=1800)
+                      weight=e[0] * max(1, e[1]) * max(1, e[2]), timeout=3000, cfg={'sym_cells_cap': 4096})
     for i1, l1, i2, l2 in ((0, 0, 1, 2), (1, 0, 0, 1), (1, 2, 1, 0), (0, 1, 0, 0), (1, 0, 1, 3), (0, 3, 1, 0)):
         for n in ((2,) if not th else (1, 2, 3)):
             if 3 in (l1, l2) and n != 2:
